@@ -43,6 +43,32 @@ CHECKS = {
                      "each is replayed; TLC judges the clientbound order language, Login Success only after an honest response, routing only after Login Acknowledged and Client "
                      "Information, the status exchange, silent termination on deviations.",
                 note=CONN_NOTE),
+    "C07": dict(engine="timed", design="5 C07", technique="TLC model checking of ConnTimed.tla (tokio Skip interval, echo policies, stage latencies) + every schedule run on the real Connection under tokio virtual time + TLC trace validation against ConnTimedProps.tla",
+                text="TLC enumerates every combination of authentication latency (late first tick), arrival of Login Acknowledged and Client Information, three routing-stage latencies (0 to 3 "
+                     "periods) and client echo policy (prompt, slow, late, never, wrong id, duplicate, unsolicited) and checks the C07 clauses on the design; each schedule is run on the real "
+                     "Connection with scripted adapters and a reactive client under the paused tokio clock; TLC judges every timestamped history: a Keep Alive at least every 16 s while waiting, "
+                     "never two unechoed, an echoing client survives and gets its Transfer when routing completes, an unechoed Keep Alive leads to the timeout Disconnect within 16 s.",
+                note="Trusted: TLC; tokio's paused clock; the scripted client acts a quarter second after whole seconds so nothing coincides with a deadline. The phase of the timer is not "
+                     "demanded (a 15 s interval passes; exact agreement with the precise timeline is reported as model drift only)."),
+    "C08": dict(engine="frames", design="5 C08", technique="TLC model checking of Frames.tla (byte transport under select! cancellation) + the cancel situations it reaches instantiated as timed schedules on the real Connection next to an unsegmented reference run + TLC trace validation",
+                text="Frames.tla models delivery in arbitrary segments, byte-wise reads, the tick and routing completions that drop raced futures, and partial clientbound writes; TLC checks "
+                     "exactly-once in-order consumption, whole uninterleaved clientbound frames and tick serviceability for the cancel-safe design (and that the as-found structure violates "
+                     "them). Every cancel situation TLC reaches (winner x reader position x prefix length x half-written frame) is instantiated with concrete frames, cut offsets (thorough: "
+                     "every offset) and pauses in which the event falls, run next to the same scenario with whole frames; TLC judges: same packets, same service calls, same outcome, stream "
+                     "decodes without remainder, C07 timer clauses hold on the segmented run.",
+                note="Trusted: TLC; the scripted transport; the reference execution is the implementation's own unsegmented run at the same completion times (hyperproperty checked as a pair). "
+                     "Timer clauses are not judged when the transport itself withholds clientbound bytes."),
+    "C11": dict(engine="mchash", design="5 C11", technique="TLC model checking of McHash.tla (byte-level SignedHex against the arithmetic definition on all 65,792 one- and two-byte digests, edge digests, published examples) + hashlib-generated inputs run through the real minecraft_hash + TLC trace validation recomputing SignedHex(digest)",
+                text="Inputs are searched so every digest class is present (top bit set or clear, 1/2/3/4+ leading zero nibbles, leading 00 and ff bytes, 00 8x, ff 7x, 80, 7f, trailing 00), "
+                     "with fixed rare-prefix vectors and the three published vectors; TLC computes SignedHex of the hashlib digest and judges C11_EqualsSignedHex, C11_NoLeadingZeros, "
+                     "C11_SignIffTopBit, C11_Lowercase on what the code returned.",
+                note="Trusted: TLC and hashlib SHA-1 (SHA-1 is uninterpreted in the model). The exact digest 0x80 00..00 has no known preimage and is covered on the model side only."),
+    "C12": dict(engine="sessionurl", design="5 C12", technique="TLC model checking of SessionUrl.tla (server-side parser + prescribed builder, all names up to 4 symbols over an 11-symbol reserved alphabet x 3 hashes) + the real MojangAdapter::authenticate against a loopback mock via the passage_verif hook + TLC trace validation parsing the recorded raw request target",
+                text="Every TLC-exported name plus seeded crafted/random Unicode names (control characters, 4-byte UTF-8, 255-byte names, injection strings) is claimed through the real adapter; "
+                     "the mock records the raw request target; TLC parses it with the specification's grammar and judges C12_PathFixed, C12_OneUsername, C12_UsernameDecodesToName, "
+                     "C12_OneServerId, C12_ServerIdIsHash, C12_NoOtherParams.",
+                note="Trusted: TLC; the hook replaces only scheme and authority of the URL; the grammar decisions G1-G5 documented in SessionUrl.tla (WHATWG form decoding; space as %20 or +). "
+                     "The expected serverId is the code's own minecraft_hash output (its correctness is C11). How unusable answers are treated is reported as a note, it is not part of C12."),
     "C09": dict(engine="wire", design="5 C09", technique="TLC evaluation of the reference codec Wire.tla over boundary-dense domains + replay of every exported vector into passage-packets + TLC trace validation against Wire's Encode/Decode",
                 text="TLC checks Decode(Encode(v))=v with full consumption, VarInt<=5 / VarLong<=10 bytes, shortest form and rejection of ordinals outside each enum for all 41 packet "
                      "structs (base value, every field through its boundary domain, diagonals, products of neighbouring fields), VarInt/VarLong within +-300 of every 7-bit/byte/word "
@@ -97,6 +123,14 @@ NOT_YET = {
 }
 
 ENGINES = [
+    {"name": "timed", "path": "lib/timed_check.py", "serves_properties": ["C07"],
+     "kind_free_text": "spec/ConnTimed.tla checked by TLC; schedules run by hx-core conn-timed under virtual time; histories judged by TLC (Trace_ConnTimed.tla / ConnTimedProps.tla)"},
+    {"name": "frames", "path": "lib/frames_check.py", "serves_properties": ["C08"],
+     "kind_free_text": "spec/Frames.tla checked by TLC; cancel situations instantiated as paired timed schedules (hx-core conn-timed --pair); pairs judged by TLC (Trace_Frames.tla)"},
+    {"name": "mchash", "path": "lib/hash_check.py", "serves_properties": ["C11"],
+     "kind_free_text": "spec/McHash.tla checked by TLC (MC_McHash, exhaustive on 1/2-byte digests); hashlib vectors run by hx-core hash; judged by TLC (Trace_McHash.tla)"},
+    {"name": "sessionurl", "path": "lib/url_check.py", "serves_properties": ["C12"],
+     "kind_free_text": "spec/SessionUrl.tla checked by TLC (MC_SessionUrl); exported + random names through the real MojangAdapter to a loopback mock (harness/hx-http); recorded targets parsed and judged by TLC (Trace_SessionUrl.tla)"},
     {"name": "cipher", "path": "lib/cipher_check.py", "serves_properties": ["C05"],
      "kind_free_text": "spec/Cipher.tla checked by TLC; poll schedules replayed by hx-core cipher against the real CipherStream; observations judged by TLC (Trace_Cipher.tla)"},
     {"name": "agones", "path": "lib/agones_check.py", "serves_properties": ["C20"],
